@@ -96,6 +96,22 @@ def run(ctx):
         if not ok:
             ndis += 1
             ctx.soft('correspondence:import-%s' % kind, 'importer and parser model disagree on a %s input: impl %s, model %s (%s...)' % (kind, o[:40], m[:40], line[:60]), {'case': line[:8000], 'impl': o[:300], 'model': m[:300]})
+    # "never accesses memory out of bounds while doing so": the prefix and mistyped imports again under AddressSanitizer (library and harness
+    # instrumented); a NULL dereference stays the ordinary SIGSEGV (handle_segv=0), an ASan report ends the importing child with exit code 77
+    import os
+    aexe = vlib.build_harness('io_drv.cpp', vlib.build_lib('asan'), 'spqlios-fma', 'asan')
+    aenv = dict(os.environ, ASAN_OPTIONS='detect_leaks=0:handle_segv=0:handle_abort=0:abort_on_error=0:exitcode=77:allocator_may_return_null=1')
+    asub = [i for i, c in enumerate(cases) if c[1] in ('prefix', 'mistyped')]
+    if not thorough: asub = asub[::2] if len(asub) < 9000 else asub[::4]
+    aout = vlib.run_lines(aexe, [lines[i] for i in asub], timeout=3000, env=aenv)
+    nb = 0
+    for i, o in zip(asub, aout):
+        ctx.count(('asan', lines[i]))
+        if o.strip() == '877' or o.startswith('CRASH'):
+            nb += 1
+            if nb <= 3: ctx.report('out-of-bounds-while-rejecting', 'a %s input is rejected, but AddressSanitizer reports a memory error inside the importer (%s): %s...' % (cases[i][1], o[:40], lines[i][:70]),
+                                   {'case': lines[i][:8000], 'kind': cases[i][1], 'impl': o[:100], 'asan': 1})
+    ctx.cov['imports_under_asan'] = len(asub); ctx.cov['asan_reports'] = nb
     ctx.cov['correspondence_cases'] = len(cases); ctx.cov['disagreements'] = ndis
     ctx.cov['outcome_distribution'] = {'%s: %s' % k: v for k, v in sorted(dist.items())}
     ctx.cov['exhaustive'] = True
@@ -107,6 +123,11 @@ def bytes_prefix_compatible(A, B):
     return (A, B) in {(3, 1), (10, 1), (11, 1), (6, 4), (7, 4), (9, 4), (9, 7)}
 
 def replay(ctx, data):
+    if data.get('asan'):
+        import os, subprocess
+        aexe = vlib.build_harness('io_drv.cpp', vlib.build_lib('asan'), 'spqlios-fma', 'asan')
+        p = subprocess.run([aexe], input=data['case'] + '\n', capture_output=True, text=True, env=dict(os.environ, ASAN_OPTIONS='detect_leaks=0:handle_segv=0:handle_abort=0:abort_on_error=0:exitcode=77'))
+        print('case:', data['case'][:200], '\nunder AddressSanitizer now:', p.stdout.strip()[:100], '\n', p.stderr[-2500:]); return 1 if p.stdout.strip() == '877' else 0
     exe = vlib.build_harness('io_drv.cpp', vlib.build_lib('optim'), 'spqlios-fma', 'optim')
     o = vlib.run_lines(exe, [data['case']])[0]
     print('case:', data['case'][:300], '\nimplementation now:', o[:300], '\nrecorded:', str(data.get('impl'))[:300]); return 0
